@@ -645,6 +645,13 @@ def _key_value(cfg, R, f, objp, key, at):
                 return ('attr-def', r)
             return ('attr-multi', tuple(sorted(str(x) for x in reach)))
     v = R.value_id(key, at)
+    if v is None and isinstance(key, ast.Name):
+        # a local with several definitions (e.g. a parameter defaulted under `if x is None`): its value at this
+        # point is identified by the SET of definitions that reach it - equal sets at guard and store, with no
+        # definition in between, mean the same value
+        defs = tuple(sorted(d.idx for d in cfg.reaching(at, key.id)))
+        if defs:
+            return ('defs', key.id, defs)
     return v
 
 
